@@ -14,7 +14,7 @@ TopEl(n) == El("top", n.sp, n.lo, "", "", "", <<>>)
 KidSeqs(K, n) == {s \in UNION {[1..m -> K] : m \in 0..n} :
                     \A i \in 1..(Len(s) - 1) : ~(IsTxt(s[i]) /\ IsTxt(s[i + 1]))}
 
-U_top == Nine("top", "") \cup {Pat("iq", "get", "", ""), Pat("msg", "normal", "A", "x")}
+U_top == Nine("top", "") \cup {Pat("iq", "get", "", ""), Pat("msg", "normal", "A", "x"), Pat("top", "", "NS", "")}
 E_top == {TopEl(n) : n \in InNames}
          \cup {St("iq", "get", <<Nm("A", "x")>>), St("msg", "", <<Nm("A", "x")>>)}
 
